@@ -351,7 +351,7 @@ func TestC09(t *testing.T) {
 	if !raceEnabled {
 		t.Fatalf("inconclusive: C09 must be built with -race")
 	}
-	rapid.Check(t, func(t *rapid.T) {
+	checkCases(t, st, func(t *rapid.T) {
 		c := &c09Case{Property: "C09", Kind: "c09"}
 		c.Opt = kvh.GenOpt(t, "opt", kvh.OptProfile{MMapPercent: 8, FileSizes: []int64{200, 1000, 4096}})
 		c.Opt.Shards = kvh.Pick(t, []int{1, 2, 16}, "shards")
